@@ -331,12 +331,15 @@ func (n *ForNode) Render(w io.Writer, ctx *RenderContext) error {
 						LogDebug("ForNode: Applying filter %s to %T manually", filterName, baseValue)
 					}
 
-					// Try to apply the filter
+					// Apply the filter the same way every other filter is applied, so that
+					// sandbox checks and filter errors are not bypassed
 					if ctx.env != nil {
-						filterFunc, found := ctx.env.filters[filterName]
-						if found {
-							filteredResult, err := filterFunc(baseValue)
-							if err == nil && filteredResult != nil {
+						if _, found := ctx.env.filters[filterName]; found {
+							filteredResult, err := ctx.ApplyFilter(filterName, baseValue)
+							if err != nil {
+								return err
+							}
+							if filteredResult != nil {
 								if IsDebugEnabled() {
 									LogDebug("ForNode: Manual filter application successful")
 								}
